@@ -212,9 +212,12 @@ def _updateNameRecords(varfont, axisValues):
     getName = nametable.getName
     platforms = set((r.platformID, r.platEncID, r.langID) for r in nametable.names)
     for platform in platforms:
-        if not all(getName(i, *platform) for i in (1, 2, elidedNameID)):
+        if not all(
+            getName(i, *platform) for i in (1, 2, elidedNameID, *axisValueNameIDs)
+        ):
             # Since no family name and subfamily name records were found,
-            # we cannot update this set of name Records.
+            # (or an axis value name is not available for this platform and
+            # language) we cannot update this set of name Records.
             continue
 
         subFamilyName = " ".join(
